@@ -60,7 +60,11 @@ UNIT = {
             'ensures': [('P:C11', 'RESULT == !(c == 0 || c == 9 || c == 13 || c == 10 || c == 32 || c == 36 || c == 58)')],
         },
         'skipWhitespaceAndComments': skip({1: {'assigns': ['*cur'], 'invariant': ['__CPROVER_same_object(*cur, end) && %s(__CPROVER_loop_entry(*cur)) <= %s(*cur) && %s(*cur) < %s(end)' % (OFF, OFF, OFF, OFF)], 'decreases': 'end - *cur'}}),
-        'skipNonNewlineWhitespace': skip(),
+        # only blanks and escaped newlines are skipped: for an arbitrary (ghost) index g_k inside the skipped span
+        # the byte is one of ' ', TAB, CR, backslash, LF -- a dependency name can never lose a byte here
+        'skipNonNewlineWhitespace': dict(skip(), ensures=[('P:C19', POST),
+            ('P:C11', '(%s(OLD(*cur)) <= g_k && g_k < (size_t)%s(*cur)) ==> (g_buf[g_k] == 32 || g_buf[g_k] == 9 || g_buf[g_k] == 13 || g_buf[g_k] == 92 || g_buf[g_k] == 10)' % (OFF, OFF))],
+            loops={0: {'assigns': ['*cur'], 'invariant': INV + ['(%s(__CPROVER_loop_entry(*cur)) <= g_k && g_k < (size_t)%s(*cur)) ==> (g_buf[g_k] == 32 || g_buf[g_k] == 9 || g_buf[g_k] == 13 || g_buf[g_k] == 92 || g_buf[g_k] == 10)' % (OFF, OFF)], 'decreases': 'end - *cur'}}),
         'skipToEndOfLine': dict(skip(), ensures=[('P:C19', POST),
                                                  # progress: used by parse's termination argument
                                                  '%s(OLD(*cur)) < g_len ==> %s(*cur) > %s(OLD(*cur))' % (OFF, OFF, OFF)]),
